@@ -17,7 +17,7 @@ from itertools import combinations
 
 from hypothesis import strategies as st
 
-from ..common import cedge
+from ..common import permuted, cedge
 from ..engine import Clause, Violation, require
 from ..oracles import projcent as P
 
@@ -664,12 +664,57 @@ def check_similarity(case, ctx):
     ctx.nontrivial(0 < i < u)
 
 
+
+# --------------------------------------------------------------------------
+# C10.clique_many: two nodes that co-occur in hundreds of hyperedges
+#
+# "joins two nodes exactly when some hyperedge contains both": the NUMBER of such hyperedges
+# must not matter -- a projection computed from co-occurrence counts in a narrow integer type
+# loses a pair whose count is a multiple of 256 (or 65536).
+
+
+@st.composite
+def s_clique_many(draw, tier):
+    count = draw(st.sampled_from([255, 256, 257, 512, 256, 300]))
+    return {"count": count, "keep_isolated": draw(st.sampled_from([None, False, True])),
+            "extra": draw(st.lists(st.lists(st.integers(2, 13), min_size=2, max_size=3, unique=True),
+                                   max_size=3)),
+            "order_seed": draw(st.integers(0, 999))}
+
+
+def check_clique_many(case, ctx):
+    from hypergraphx import Hypergraph
+    from hypergraphx.representations.projections import clique_projection
+    others = list(range(2, 14))
+    subsets = [c for r in range(0, 4) for c in combinations(others, r)]   # 299 subsets
+    chosen = permuted(subsets, case["order_seed"])[:case["count"]]
+    edges = [(0, 1) + c for c in chosen] + [tuple(e) for e in case["extra"]]
+    h = Hypergraph(edges)
+    h.add_node(99)
+    kw = {} if case["keep_isolated"] is None else {"keep_isolated": case["keep_isolated"]}
+    g = clique_projection(h, **kw)
+    exp = set()
+    for e in set(map(frozenset, edges)):
+        for u, v in combinations(sorted(e), 2):
+            exp.add(frozenset((u, v)))
+    got = {frozenset((u, v)) for u, v in g.edges()}
+    require(got == exp,
+            lambda: "clique_projection of %d hyperedges, %d of them containing both 0 and 1: "
+                    "missing pairs %r, unexpected %r"
+            % (len(edges), case["count"], sorted(map(sorted, exp - got))[:5],
+               sorted(map(sorted, got - exp))[:5]), key="clique-pairs")
+    ctx.label("pair_in_%d_hyperedges" % case["count"])
+    ctx.nontrivial(case["count"] % 256 == 0)
+
+
 CLAUSES = [
     Clause("bipartite", s_bipartite, check_bipartite, quick=600, thorough=2500,
            rule="at least two hyperedges, two of them sharing a node"),
     Clause("clique", lambda tier: s_clique_cases(tier), check_clique, quick=600, thorough=2500,
            rule="at least one joined pair and at least one node without any neighbour "
                 "(isolated or only in a singleton hyperedge)"),
+    Clause("clique_many", s_clique_many, check_clique_many, quick=8, thorough=12,
+           rule="two nodes co-occurring in a multiple of 256 hyperedges"),
     Clause("line_graph", lambda tier: s_line_cases(tier), check_line_graph, quick=600,
            thorough=4000, shards_quick=3,
            rule="some pair of hyperedges has similarity exactly s and another pair has a "
